@@ -4,9 +4,9 @@ SPEC = {
     "gen": ["muxsorts", "muxorder", "muxmapsites"],
     "streams": [
         {"name": "mux-c01", "cmd": "mux",
-         "args": {"quick": ["-mode", "c01", "-blocks", "20", "-runs", "4", "-tieruns", "3", "-tieblocks", "14", "-procruns", "1", "-rtruns", "2", "-upgruns", "2", "-govruns", "2"],
-                  "thorough": ["-mode", "c01", "-blocks", "200", "-runs", "6", "-tieruns", "6", "-tieblocks", "60", "-procruns", "2", "-rtruns", "3", "-upgruns", "3", "-govruns", "4"]},
-         "search_args": ["-mode", "c01", "-blocks", "40", "-runs", "8", "-tieruns", "6", "-tieblocks", "30", "-procruns", "1", "-rtruns", "3", "-upgruns", "4", "-govruns", "4"],
+         "args": {"quick": ["-mode", "c01", "-blocks", "20", "-runs", "4", "-tieruns", "3", "-tieblocks", "14", "-procruns", "1", "-rtruns", "2", "-upgruns", "2", "-govruns", "2", "-faultruns", "2"],
+                  "thorough": ["-mode", "c01", "-blocks", "200", "-runs", "6", "-tieruns", "6", "-tieblocks", "60", "-procruns", "2", "-rtruns", "3", "-upgruns", "3", "-govruns", "4", "-faultruns", "4"]},
+         "search_args": ["-mode", "c01", "-blocks", "40", "-runs", "8", "-tieruns", "6", "-tieblocks", "30", "-procruns", "1", "-rtruns", "3", "-upgruns", "4", "-govruns", "4", "-faultruns", "4"],
          "timeout": 3600},
     ],
     "trusted_base": [
@@ -31,7 +31,7 @@ SPEC = {
 
 MANIFEST = {
     "technique": "Coq proof over a generic model of the ABCI multiplexer (all paths refine one reference execution; lifted to histories by induction) + four-way differential execution of seeded block histories on the real multiplexer with all real apps (different paths, local configs, backends, restarts, concurrent CheckTx/EstimateGas/queries/pruner)",
-    "level_text": "Theorems in coq/Props/C01.v hold for every instance of the generic multiplexer model (any state type, any deterministic applications, any decoder/auth handler): propose+cached, process-proposal, plain replay and restart-then-replay/process all equal the reference execution of the block on the committed state, also after arbitrary failed rounds that left a stale proposal cache (stale_rounds_harmless, up to a block-hash collision); outputs and committed state are equal for all local configurations and registration orders; lifted to arbitrary histories with interleaved CheckTx/simulation/pruning (replicas_agree) and with failed consensus rounds in between (replicas_agree_with_failed_rounds); the block functions that iterate Go maps (RuntimesToFinalize, stake-ordered election slice and cutoff, reward list, signing-eligible entities) are independent of the iteration order given the sort sites the generator reads from the source (map_order_irrelevant, lifted to blocks of a concrete ledger instance); the proposer cache equals re-execution under the named commit-info hypothesis (refuted without it); dispatch order is the sorted name order. The tie to the code for the property itself is the harness: per seed a 4-validator genesis (plus histories in which every replica runs the REAL persistent upgrade manager and a governance upgrade proposal passes, its closing block executed after failed rounds, after a restart before commit and on a replica with the descriptor pre-submitted; plus histories with a due consensus upgrade whose migration writes state in EndBlock, histories with two runtimes finalizing in the same block, and election-tie histories: 8 validator entities with EQUAL escrow, MaxValidators 3-4, no rewards, an election every 2 blocks, so stake ties straddle the cutoff at every election), blocks of 0-8 staking/governance/registry/beacon transactions (70 % valid), epoch transitions, vote patterns, duplicate-vote evidence, executed by FOUR real replicas on different paths/configs/backends with background CheckTx/EstimateGas/historical queries, compared after every height; the model is tied to the code on the proposal-cache reuse decisions (isEqual/needsExecution/resetProposalIfChanged) and the dispatch order observed through a read-only hook.",
+    "level_text": "Theorems in coq/Props/C01.v hold for every instance of the generic multiplexer model (any state type, any deterministic applications, any decoder/auth handler): propose+cached, process-proposal, plain replay and restart-then-replay/process all equal the reference execution of the block on the committed state, also after arbitrary failed rounds that left a stale proposal cache (stale_rounds_harmless, up to a block-hash collision); outputs and committed state are equal for all local configurations and registration orders; lifted to arbitrary histories with interleaved CheckTx/simulation/pruning (replicas_agree) and with failed consensus rounds in between (replicas_agree_with_failed_rounds); the block functions that iterate Go maps (RuntimesToFinalize, stake-ordered election slice and cutoff, reward list, signing-eligible entities) are independent of the iteration order given the sort sites the generator reads from the source (map_order_irrelevant, lifted to blocks of a concrete ledger instance); the proposer cache equals re-execution under the named commit-info hypothesis (refuted without it); dispatch order is the sorted name order. The tie to the code for the property itself is the harness: per seed a 4-validator genesis (plus histories with injected one-off node-local faults -- a panic after state was written, inside ProcessProposal on one replica or PrepareProposal on the proposer, through a harness-side application registered with the real mux -- followed by the same block as decided; plus histories in which every replica runs the REAL persistent upgrade manager and a governance upgrade proposal passes, its closing block executed after failed rounds, after a restart before commit and on a replica with the descriptor pre-submitted; plus histories with a due consensus upgrade whose migration writes state in EndBlock, histories with two runtimes finalizing in the same block, and election-tie histories: 8 validator entities with EQUAL escrow, MaxValidators 3-4, no rewards, an election every 2 blocks, so stake ties straddle the cutoff at every election), blocks of 0-8 staking/governance/registry/beacon transactions (70 % valid), epoch transitions, vote patterns, duplicate-vote evidence, executed by FOUR real replicas on different paths/configs/backends with background CheckTx/EstimateGas/historical queries, compared after every height; the model is tied to the code on the proposal-cache reuse decisions (isEqual/needsExecution/resetProposalIfChanged) and the dispatch order observed through a read-only hook.",
     "level_note": "For C01 the applications are abstract in the Coq theorems: determinism of the REAL apps (map iteration order, reward/fee arithmetic, elections) is established only empirically by the replica comparison on the explored histories, not proved. The correspondence stream covers the cache decisions and app ordering only. Real goroutine interleavings, Badger and the MKVS are exercised, not modelled. One standard and one election-tie history per quick run (two each in the thorough tier) additionally run every replica in its own OS process; the others are in-process (map iteration order still varies per map instance). The enumeration of map iterations is exhaustive for the listed packages (type-checked), but the link from a reviewed site to its generic lemma is by review, not by a model of that function; 10 sites read the process-wide unsafe flag debug.dont_blame_oasis inside consensus-relevant code (class UnsafeDebugFlag): replicas agree only if they agree on that flag (demonstrated by summary.extra.debug_flag_probe).",
 }
 
@@ -57,7 +57,7 @@ def post_streams(run):
     e = vcheck.env()
     e["GORACE"] = "halt_on_error=0 exitcode=0 log_path=%s" % os.path.join(outdir, "race")
     cmd = [os.path.join(root, "harness", "bin", "mux-race"), "-mode", "c01", "-seed", str(run.seed), "-out", outdir,
-           "-blocks", "40", "-runs", "3", "-tieruns", "1", "-tieblocks", "16", "-procruns", "0", "-rtruns", "1", "-upgruns", "1", "-govruns", "1"]
+           "-blocks", "40", "-runs", "3", "-tieruns", "1", "-tieblocks", "16", "-procruns", "0", "-rtruns", "1", "-upgruns", "1", "-govruns", "1", "-faultruns", "1"]
     r = subprocess.run(cmd, stdout=subprocess.PIPE, stderr=subprocess.STDOUT, text=True, env=e, cwd=run.work, timeout=3600)
     sj = os.path.join(outdir, "summary.json")
     if r.returncode != 0 or not os.path.exists(sj):
